@@ -842,6 +842,9 @@ void exec_op(world& w, const json& op)
             if (fired)
                 r["dsame"] = vh::raw_reader{w.conn}.digest() == d0;
         }
+        // no call - completed, refused or failed - returns with a transaction still open on its connection
+        if (w.conn)
+            r["ac"] = sqlite3_get_autocommit(w.conn) != 0;
         if (w.want_stmts && !fired)   // (complete executions only: the discipline is judged on whole calls)
         {
             json st = json::array();
